@@ -137,6 +137,22 @@ pub trait DiagramRules<E: Edge, N: InnerNode<E>, T> {
     /// complemented, then we need to complement the outgoing edges as well.
     fn cofactors(tag: E::Tag, node: &N) -> Self::Cofactors<'_>;
 
+    /// Get the terminal that is the `n`-th cofactor of any function with
+    /// respect to a variable the function does not depend on, or `None` if
+    /// this cofactor is the function itself
+    ///
+    /// For most kinds of decision diagrams, both (all) cofactors with respect
+    /// to a variable that a function does not depend on are the function
+    /// itself, hence the default implementation returns `None`. In
+    /// zero-suppressed decision diagrams, however, an edge skipping a level
+    /// means that the respective variable is false/not contained, so the
+    /// "high" cofactor is the empty set. This method is used when swapping
+    /// levels (see the `oxidd-reorder` crate).
+    #[inline(always)]
+    fn skipped_cofactor_terminal(_n: usize) -> Option<T> {
+        None
+    }
+
     /// Get the `n`-th cofactor of `node` assuming an incoming edge with `tag`
     ///
     /// This is equivalent to `Self::cofactors(tag, node).nth(n).unwrap()`.
